@@ -277,6 +277,8 @@ class Driver:
                 self.end_exec()
                 self.x = st.get("x", 0)
                 self.k = 0
+                self.skipping = False
+                self.stop_on_fire = False
                 self.ctx = Ctx()
                 self.env_set = {}
                 if self.rank == 0:
@@ -297,6 +299,12 @@ class Driver:
                 self.barrier()
                 continue
             self.k += 1
+            if getattr(self, "skipping", False):
+                # the armed failure has fired in an earlier step of this execution: the program ends there
+                rk_ = st.get("ranks")
+                if rk_ is None or self.rank in rk_:
+                    self.emit({"e": op, "a": {"skipped": 1}, "rc": "SKIPPED", "out": {}, "obs": {}})
+                continue
             ranks = st.get("ranks")
             if ranks is None or self.rank in ranks:
                 a = {k_: v_ for k_, v_ in st.items() if k_ not in ("op", "ranks", "pr", "obs")}
@@ -333,6 +341,13 @@ class Driver:
                     self.barrier()
             if st.get("obs") and not st.get("nosync"):
                 self.barrier()
+            if getattr(self, "stop_on_fire", False) and self.L.shim is not None:
+                bal = (c_longlong * 8)()
+                self.L.shim.verif_shim_balance(bal)
+                mine, anyf = c_int(1 if bal[5] else 0), c_int(0)
+                self.L.mpi.MPI_Allreduce(byref(mine), byref(anyf), 1, self.L.handle("ompi_mpi_int"), self.L.handle("ompi_mpi_op_max"), self.L.world)
+                if anyf.value:
+                    self.skipping = True
         self.end_exec()
         self.tr.close()
         self.L.mpi.MPI_Finalize()
@@ -1182,6 +1197,7 @@ class Driver:
         if isinstance(cls, str):
             cls = self.L.shim.verif_shim_errclass(cls.encode())
         self.L.shim.verif_shim_inject(a.get("kth", -1), cls, a.get("rank", -1))
+        self.stop_on_fire = bool(a.get("stop"))
         return 0, {}
 
 
